@@ -29,6 +29,7 @@ META = dict(
 )
 META["text"] += ' (R6, N) CVR and Stratum constructors store id, votes, phantom, tally_pool, pool / max_cards, use_style from the parameters of the same name.'
 META["text"] += " (R7 = C17.R3) the manifest's phantom batch holds max_cards - manifest_cards cards."
+META["text"] += ' (R8 = C06.R4) a pair is kept on the strength of the CVR listing the contest, so a phantom MVR is scored. (R9, N) check_cards validates and raises; it never stores into a contest.'
 
 
 def run(chk):
@@ -42,6 +43,7 @@ def run(chk):
     r123(chk)
     r4(chk)
     r5(chk)
+    r9_check_cards(chk)
     # R6: the flags and identifiers the rules above read are the ones the constructors were given
     aud.ctor_fields(chk, "C08.R6", REL, "CVR", ["id", "votes", "phantom", "tally_pool", "pool"], "phantom records are recognised by obj.phantom")
     aud.ctor_fields(chk, "C08.R6", REL, "Stratum", ["max_cards", "use_style"], "the accounting scheme and the card bound come from the stratum")
@@ -52,6 +54,63 @@ def run(chk):
             c17.prep_rule(c, name, fm)
     chk.borrow(_prep, {"C17.R3": "C08.R7"})
     chk.obs = [o for o in chk.obs if not (o.rule == "C08.R7" and o.key not in ("phantom-batch", "manifest_cards=sum-of-counts", "cum_cards-after-append"))]
+    # R8: a phantom MVR is scored at all only because the pair is kept on the strength of the *CVR* listing the contest (C06.R4)
+    from . import c06
+    chk.borrow(c06.r4, {"C06.R4": "C08.R8"})
+    chk.obs = [o for o in chk.obs if not (o.rule == "C08.R8" and o.key not in ("style-threshold-filter", "aligned-pairs"))]
+
+
+def r9_check_cards(chk):
+    """The validator the accounting relies on (card bounds >= CVR counts): it counts the CVRs listing each contest, refuses a
+    bound that is too small unless forced, and when forced only ever *raises* the bound to that count."""
+    fn = chk.fn(REL, "Contest.check_cards")
+    where = W("Contest.check_cards")
+    loops = [l for l in fn.body if isinstance(l, ast.For)]
+    ok = False
+    detail = {}
+    if len(loops) == 1 and isinstance(loops[0].target, ast.Tuple) and norm(loops[0].iter) == "contests.items()":
+        l = loops[0]
+        k, con = [norm(e) for e in l.target.elts]
+        cnt = [st for st in l.body if isinstance(st, ast.Assign) and isinstance(st.targets[0], ast.Name) and aud.comps(st)]
+        count_ok = False
+        FN = None
+        if len(cnt) == 1:
+            FN = cnt[0].targets[0].id
+            cs = aud.comps(cnt[0])
+            if len(cs) == 1 and isinstance(cnt[0].value, ast.Call) and norm(cnt[0].value.func) in ("np.sum", "sum", "len"):
+                elt, tgt, it, ifs = aud.single_gen(cs[0])
+                count_ok = norm(it) == "cvrs" and ((norm(elt) == f"{norm(tgt)}.has_contest({k})" and not ifs) or
+                                                   (len(ifs) == 1 and norm(ifs[0]) == f"{norm(tgt)}.has_contest({k})"))
+        if FN:
+            tx = Tx()
+            tx.env[FN] = E(S("found"))
+            tx.skip_calls = True
+            body = [st for st in l.body if st is not cnt[0]]
+            try:
+                tx.block(body)
+                got = tx.env.get(f"@{con}.cards", E(S(f"{con}.cards")))
+                g = symx.c_and(*tx.guards) if tx.guards else True
+                got = I(g, got, symx.Raise("ValueError")) if g is not True else got
+                w = Tx(env={"found": E(S("found"))})
+                want = w.expr(ast.parse(f"(max({con}.cards, found) if force else {con}.cards) if (not (found > {con}.cards) or force) else RAISE", mode="eval").body)
+                want = symx.map_leaf_raise(want) if hasattr(symx, "map_leaf_raise") else want
+                # compare on the rows where the function does not raise; and raise exactly when found > cards and not force
+                okv = True
+                atoms = val_atoms(got) | val_atoms(want)
+                for row in rows(atoms):
+                    a_, b_ = eval_val(got, row), eval_val(want, row)
+                    raises_want = sp.sstr(b_) == "RAISE" if not isinstance(b_, symx.Raise) else True
+                    if isinstance(a_, symx.Raise) != raises_want:
+                        okv = False
+                    elif not isinstance(a_, symx.Raise) and not is_zero(a_ - b_):
+                        okv = False
+                detail = dict(cards_after=repr(got)[:200])
+                ok = count_ok and okv and whole_collection(l.iter)
+            except symx.Unsupported as e:
+                detail = dict(untranslated=str(e))
+    chk.ob("C08.R9", where, "bound-checked-and-only-raised", ok,
+           "for every contest: found = number of CVRs listing it; found > cards raises unless forced; when forced the bound becomes "
+           "max(cards, found), otherwise it is left alone", node=fn, strength="N", **detail)
 
 
 def cvr_ctor_calls(node):
